@@ -252,6 +252,17 @@ fn native_cb(it: &mut ResponseIterator<'_>, prog: &[u8], sec: u8, idx: u32, tr: 
                     }
                 }
             }
+            0x2c => {
+                let name = r.blob();
+                if run && !r.bad {
+                    // a zero-length zone means "no zone", whatever the pointer
+                    let res = dgen::raw_name_from_str(name, None).and_then(|raw| it.set_raw_name(&raw));
+                    match res {
+                        Ok(()) => tr.push_str(" set_name rc=0\n"),
+                        Err(e) => tr.push_str(&format!(" set_name rc=-1{}\n", err_hex(&e.to_string()))),
+                    }
+                }
+            }
             0x2a => {
                 if run {
                     match it.delete() {
@@ -473,13 +484,21 @@ fn gen_cb_prog(src: &mut Src, m: &Message, sec: usize, s: &mut ScriptBuf, st: &m
                 p.u8(0x29);
                 let mut f = vec![];
                 let text = if src.chance(50) { (*src.pick(&["a..b", "", ".", "x.", "-bad-.example", "UPPER.Example"])).as_bytes().to_vec() } else { rrtext::gen_host(src, 200, &mut f, true).0.into_bytes() };
-                p.blob(&text);
-                let zone = match src.below(3) {
-                    0 => vec![],
-                    1 => Name::from_dotted("zone.example").to_wire(),
-                    _ => Name::root().to_wire(),
-                };
-                p.blob(&zone);
+                if src.chance(50) {
+                    // rewrite the opcode just pushed: non-NULL zero-length zone variant
+                    let l = p.bytes.len();
+                    p.bytes[l - 1] = 0x2c;
+                    p.blob(&text);
+                    st.class("cb:set_name-empty-zone-buffer");
+                } else {
+                    p.blob(&text);
+                    let zone = match src.below(3) {
+                        0 => vec![],
+                        1 => Name::from_dotted("zone.example").to_wire(),
+                        _ => Name::root().to_wire(),
+                    };
+                    p.blob(&zone);
+                }
                 st.class("cb:set_name");
             }
             9 => {
@@ -596,7 +615,7 @@ pub fn gen_script(src: &mut Src, d: &Decoded, st: &mut Stats) -> ScriptBuf {
                     st.class("top:iter_edns");
                 } else {
                     let prog = gen_cb_prog(src, m, sec, &mut s, st);
-                    if prog.iter().any(|&b| b == 0x25 || b == 0x27 || b == 0x28 || b == 0x29 || b == 0x2a) {
+                    if prog.iter().any(|&b| b == 0x25 || b == 0x27 || b == 0x28 || b == 0x29 || b == 0x2a || b == 0x2c) {
                         mutated_in_cb = true;
                     }
                     s.blob(&prog);
@@ -969,6 +988,6 @@ pub fn check_c15(ctx: &Ctx, known: &KnownFindings) -> Report {
             }
         }
     }
-    rep.require(&["driver-compiled-against-shipped-header", "top:iter", "top:iter_edns", "top:add", "top:rename", "cb:set_rr_ttl", "cb:set_rr_ip", "cb:set_raw_name", "cb:set_name", "cb:delete_rr", "call-after-callback-mutation", "failing-call", "opt:First", "opt:Middle", "opt:Last"]);
+    rep.require(&["driver-compiled-against-shipped-header", "top:iter", "top:iter_edns", "top:add", "top:rename", "cb:set_rr_ttl", "cb:set_rr_ip", "cb:set_raw_name", "cb:set_name", "cb:set_name-empty-zone-buffer", "cb:delete_rr", "call-after-callback-mutation", "failing-call", "opt:First", "opt:Middle", "opt:Last"]);
     rep
 }
